@@ -52,6 +52,9 @@ def table(draw):
     groups = [g.lower() for g in groups]
     metrics = draw(st.lists(st.sampled_from(METRIC_NAMES), min_size=nm, max_size=nm, unique=True))
     subjects = draw(gen.names(ns, alphabet="abcXYZ019-_ ."))
+    if draw(st.integers(0, 2)) == 0:
+        subjects = draw(gen.subject_name_variants(subjects, 12))
+        ns = len(subjects)
     # case-sensitive uniqueness is enough for subjects, keep them as drawn
     cells = [[draw(cell) for _ in range(ng * nm)] for _ in range(ns)]
     # a permutation drawn as sort keys (st.permutations is not supported by Hypothesis' fuzz_one_input provider)
